@@ -89,6 +89,8 @@ def dur_event(tu, sec, ms):
         t_ms = tu.format_hms(total_ms, True)
         t_s = tu.format_hms(total_ms / 1000.0)
         t_s2 = tu.format_hms(total_ms / 1000.0, False)
+        if ms == 0 and tu.format_hms(sec) != t_s:                 # whole seconds given as an int
+            t_s2 = "int seconds differ: " + repr(tu.format_hms(sec))
     except Exception as ex:  # pylint: disable=broad-except
         return {"k": "dur", "sec": sec, "ms": ms, "p": lex_duration(None), "same": False, "raw": "raised " + type(ex).__name__}
     return {"k": "dur", "sec": sec, "ms": ms, "p": lex_duration(t_s), "same": (t_ms == t_s == t_s2), "raw": [t_s, t_ms]}
